@@ -384,12 +384,17 @@ fn downcasts(rep: &mut Report) {
 }
 
 /// Allocator ledger around create-use-drop of whole (reloader-less) caches.
-fn allocator_bracket(rep: &mut Report, rng: &mut Rng, rounds: usize) {
+fn allocator_bracket(rep: &mut Report, rng: &mut Rng, rounds: usize, threads_at_start: usize) {
     rep.extra.insert("alloc_ledger_enabled".into(), json!(al::ENABLED));
     if !al::ENABLED {
         return;
     }
     let ids = c02::big_ids();
+    // reloader / helper threads of the earlier sections free their structures when they exit
+    if !crate::util::settle_threads(threads_at_start, 20_000) {
+        rep.note("allocator brackets skipped: threads of earlier sections did not go away within 20 s");
+        return;
+    }
     for round in 0..rounds {
         rep.eval();
         let tree = c02::random_tree(rng, &ids);
@@ -436,6 +441,10 @@ fn allocator_bracket(rep: &mut Report, rng: &mut Rng, rounds: usize) {
 
 pub fn run(args: &Args) -> Report {
     let mut rep = Report::new(args);
+    #[cfg(not(miri))]
+    let threads_at_start = crate::procfs::tasks().len();
+    #[cfg(miri)]
+    let threads_at_start = 1usize;
     rep.rule = "(a) C02-style random histories over payloads of different shape (zero-sized, u8, heap-owning, \
                 align(64), 4 KiB) on every front-end with the token ledger compared after every step; (b) reload \
                 histories (C05 generator) with the ledger compared after every step and pass (old values dropped by \
@@ -503,7 +512,7 @@ pub fn run(args: &Args) -> Report {
     rep.count("race_rounds_with_a_loser", contended);
     // (e)
     if !miri {
-        allocator_bracket(&mut rep, &mut rng, args.n(40, 600));
+        allocator_bracket(&mut rep, &mut rng, args.n(40, 600), threads_at_start);
     }
     // (f)
     if args.shard == 0 {
